@@ -17,6 +17,12 @@ theorem source_discipline :
 
 theorem policy_is_conditional : alwaysWriteFromFacts = false := by decide
 
+/-- No function of the printing packages (ir, ir/types, ir/constant, ir/metadata, ir/enum, ir/value, internal/enc,
+    internal/natsort, internal/gep) writes a package-level variable (assignment, index or field assignment, increment or decrement): the
+    printers, which run unlocked on any number of goroutines, share no global mutable state such as memo tables.
+    The fact is REGENERATED from the source on every run (go/ast). -/
+theorem no_package_level_writes : Facts.globalWrites = [] := by decide
+
 /-- Race freedom for ANY number of concurrent print calls, ANY interleaving and BOTH start states
     (never printed / already printed): with conditional writes every conflicting pair of accesses is
     ordered by happens-before. -/
